@@ -65,6 +65,9 @@ def value_for(g, dv, col, allow_alt=True):
     k = rng.randint(0, 3)
     if k == 0:
       return None
+    if rng.random() < 0.2:
+      # a list cell may hold the same element twice ("one key per *distinct* element")
+      return ["L"] + [rng.choice(CHOICES) for _ in range(k + 1)]
     return ["L"] + rng.sample(CHOICES, k)
   if pure == "Date":
     return rng.choice(DATE_POOL)
@@ -82,6 +85,8 @@ def value_for(g, dv, col, allow_alt=True):
     k = rng.randint(0, min(3, len(rows)))
     if k == 0:
       return None
+    if rng.random() < 0.15 and not getattr(col, "reverseCol", 0):
+      return ["L"] + [rng.choice(rows) for _ in range(k + 1)]
     return ["L"] + rng.sample(rows, k)
   if pure in ("ManualSortPos", "PositionNumber"):
     return None
@@ -152,6 +157,9 @@ def op_update_records(g, dv, protected):
   chosen = g.rng.sample(cols, k)
   n = g.rng.choice([1, 1, 2, 3])
   rows = g.rng.sample(t.row_ids, min(n, len(t.row_ids)))
+  if len(rows) >= 2 and g.rng.random() < 0.15 and not any(c.reverseCol for c in chosen):
+    # clients may batch edits so that one bulk update names a row more than once
+    rows = rows + [g.rng.choice(rows)]
   if len(rows) == 1 and g.rng.random() < 0.6:
     return [["UpdateRecord", t.tableId, rows[0],
              {c.colId: cell_value(g, dv, c, protected) for c in chosen}]]
@@ -215,7 +223,7 @@ def op_add_data_column(g, dv, protected):
   choices = list(DATA_TYPES)
   targets = data_tables(dv)
   if targets:
-    choices += ["Ref", "RefList"]
+    choices += ["Ref", "Ref", "RefList"]
   ctype = g.rng.choice(choices)
   if ctype in ("Ref", "RefList"):
     ctype = "%s:%s" % (ctype, g.rng.choice(targets).tableId)
@@ -253,8 +261,8 @@ def gen_formula(g, dv, t, limit_ref=None, kinds=None):
   """Return a formula text for a column of table t (None if nothing applies)."""
   rng = g.rng
   kinds = list(kinds or g.cfg.get("formula_kinds",
-               ["arith", "arith", "str", "ref", "reflist", "lookup", "lookup", "lookupone",
-                "count", "all"]))
+               ["arith", "arith", "str", "ref", "ref", "reflist", "lookup", "lookup", "lookupone",
+                "count", "all", "twopath", "twopath", "contains", "find", "prevnext"]))
   rng.shuffle(kinds)
   own = _earlier(dv, t, limit_ref)
   for kind in kinds:
@@ -295,6 +303,10 @@ def gen_formula(g, dv, t, limit_ref=None, kinds=None):
         return f
     elif kind == "contains":
       f = gen_contains(g, dv, t, limit_ref)
+      if f:
+        return f
+    elif kind == "twopath":
+      f = gen_twopath(g, dv, t, limit_ref)
       if f:
         return f
     elif kind == "find":
@@ -399,6 +411,45 @@ def gen_contains(g, dv, t, limit_ref):
     order = _sort_spec_text(rng, sortcols) if rng.random() < 0.5 else ""
     return "[r.id for r in %s.lookupRecords(%s=CONTAINS(%s%s)%s)]" % (o.tableId, lc.colId, kexpr, me, order)
   return None
+
+
+def gen_twopath(g, dv, t, limit_ref):
+  """A formula that reaches one column of another table along two different relations:
+  two reference columns into the same table, a reference plus a lookup, or the row's own value
+  plus its PREVIOUS neighbour's."""
+  rng = g.rng
+  own = _earlier(dv, t, limit_ref)
+  refs = [c for c in own if c.pure == "Ref" and c.target in dv.tables and not c.isFormula]
+  def num(x):
+    return "(%s if isinstance(%s, (int, float)) else 0)" % (x, x)
+  shapes = []
+  by_target = {}
+  for r in refs:
+    by_target.setdefault(r.target, []).append(r)
+  for target, rs in by_target.items():
+    tc = [c for c in _earlier(dv, dv.tables[target], limit_ref) if _numeric(c)]
+    if not tc:
+      continue
+    v = rng.choice(tc).colId
+    if len(rs) >= 2:
+      a, b = rng.sample(rs, 2)
+      shapes.append("%s + %s" % (num("$%s.%s" % (a.colId, v)), num("$%s.%s" % (b.colId, v))))
+    keys = [c for c in _earlier(dv, dv.tables[target], limit_ref) if _keyable(c)]
+    same = [(k, c) for k in keys for c in own if c.pure == k.pure and not c.formula and not c.isFormula]
+    if same:
+      k, c = rng.choice(same)
+      shapes.append("%s + %s" % (num("$%s.%s" % (rs[0].colId, v)),
+                                 num("%s.lookupOne(%s=$%s).%s" % (target, k.colId, c.colId, v))))
+  nums = [c for c in own if _numeric(c) and not c.formula]
+  sorts = [c for c in own if _keyable(c) and c.pure in ("Int", "Numeric", "Text", "Date")]
+  if nums and sorts:
+    a = rng.choice(nums).colId
+    shapes.append('%s + %s' % (num("$" + a), num('PREVIOUS(rec, order_by="%s").%s' % (rng.choice(sorts).colId, a))))
+  selfrefs = [c for c in refs if c.target == t.tableId]
+  if selfrefs and nums:
+    a = rng.choice(nums).colId
+    shapes.append("%s + %s" % (num("$" + a), num("$%s.%s" % (rng.choice(selfrefs).colId, a))))
+  return rng.choice(shapes) if shapes else None
 
 
 def gen_find(g, dv, t, limit_ref):
@@ -595,7 +646,13 @@ def op_toggle_formula(g, dv, protected):
   if not c.isFormula and c.pure not in ("Ref", "RefList"):
     f = gen_formula(g, dv, t, limit_ref=c.ref, kinds=["arith", "str"])
     if f:
-      return [["ModifyColumn", t.tableId, c.colId, {"isFormula": True, "formula": f}]]
+      info = {"isFormula": True, "formula": f}
+      if g.rng.random() < 0.4:
+        # the same action may change the type as well (lossy conversions of the stored values)
+        info["type"] = g.rng.choice([x for x in ("Any", "Int", "Text", "Numeric", "Bool") if x != c.pure])
+      if g.rng.random() < 0.3:
+        return [["UpdateRecord", "_grist_Tables_column", c.ref, info]]
+      return [["ModifyColumn", t.tableId, c.colId, info]]
   return None
 
 
